@@ -463,6 +463,152 @@ let pg_cmd (args : string list) : string =
   | _ -> "bad-command"
 
 
+(* ---------- TBL: sorted tables (C13) ---------- *)
+let tbl_tables : (string, table * (n list -> bool) * n list option) Hashtbl.t = Hashtbl.create 16
+let tbl_cursors : (string * string, bound0 * bound0 * titer ref) Hashtbl.t = Hashtbl.create 16
+let big_of_string (s : string) : n =
+  (* decimal string -> N, beyond OCaml's int range *)
+  let acc = ref N0 in
+  let ten = n_of_int 10 in
+  String.iter (fun c -> acc := N.add (N.mul !acc ten) (n_of_int (Char.code c - 48))) s; !acc
+let rec string_of_pos_dec (x : n) : string =
+  (* N -> decimal string *)
+  let ten = n_of_int 10 in
+  match x with
+  | N0 -> ""
+  | _ -> let (q, r) = N.div_eucl x ten in string_of_pos_dec q ^ string_of_int (int_of_n r)
+let dec_of_n (x : n) : string = match x with N0 -> "0" | _ -> string_of_pos_dec x
+let norm_key (k : ikey) : ikey = match ik_decode (ik_encode k) with Some k' -> k' | None -> k
+let mk_key u seq kind ts = norm_key { ik_uk = u; ik_seq = seq; ik_kind = kind; ik_ts = ts }
+let tbl_val tok rest =
+  match tok :: rest with
+  | ["rep"; len; seed] ->
+    let len = int_of_string len and seed = int_of_string seed in
+    List.init len (fun i -> byte_tab.((seed * 31 + i * 7 + (i / 251)) land 255))
+  | [h] -> bytes_of_hex h
+  | _ -> failwith "bad value"
+let tbl_entries (s : string) : (ikey * n list) list =
+  if s = "-" then [] else
+  List.map (fun tok ->
+      match String.split_on_char ':' tok with
+      | k :: seq :: kind :: ts :: v :: rest ->
+        (mk_key (bytes_of_hex k) (big_of_string seq) (big_of_string kind) (big_of_string ts), tbl_val v rest)
+      | _ -> failwith "bad entry") (String.split_on_char ',' s)
+let tbl_opts (s : string) : (string * int) list =
+  List.map (fun kv -> match String.split_on_char '=' kv with [k; v] -> (k, int_of_string v) | _ -> failwith "bad option") (String.split_on_char ',' s)
+let show_val (v : n list) : string =
+  if List.length v <= 32 then hex_of_bytes v else Printf.sprintf "#%d/%s" (List.length v) (fnv v)
+let show_ikey (k : ikey) : string =
+  Printf.sprintf "%s:%s:%s:%s" (hex_of_bytes k.ik_uk) (dec_of_n k.ik_seq) (dec_of_n k.ik_kind) (dec_of_n k.ik_ts)
+let fnv_keys (ks : ikey list) : string =
+  fnv (List.concat_map (fun k ->
+      let e = ik_encode k in
+      let l = List.length e in
+      [byte_tab.((l lsr 24) land 255); byte_tab.((l lsr 16) land 255); byte_tab.((l lsr 8) land 255); byte_tab.(l land 255)] @ e) ks)
+let tbl_bound (s : string) : bound0 =
+  if s = "~" then BUnb
+  else if s.[0] = 'i' then BInc (bytes_of_hex (String.sub s 1 (String.length s - 1)))
+  else if s.[0] = 'x' then BExc (bytes_of_hex (String.sub s 1 (String.length s - 1)))
+  else failwith "bad bound"
+let bloom_k (bpk : int) : int = max 1 (min 30 (int_of_float (float_of_int bpk *. 0.7)))
+let first_of l = match l with (k, _) :: _ -> k | [] -> failwith "empty"
+let rec last_of l = match l with [(k, _)] -> k | _ :: r -> last_of r | [] -> failwith "empty"
+let dots s = if s = "" then [] else List.map (fun x -> nat_of_int (int_of_string x)) (String.split_on_char '.' s)
+let tbl_cmd (args : string list) : string =
+  match args with
+  | ["params"] ->
+    Printf.sprintf "kinds=%s seqmax=%s tsmax=%s cksum=%d ctype=%d"
+      (String.concat "." (List.map dec_of_n [iK_KIND_DELETE; iK_KIND_SOFTDELETE; iK_KIND_SET; iK_KIND_MERGE; iK_KIND_LOGDATA;
+                                             iK_KIND_RANGEDELETE; iK_KIND_REPLACE; iK_KIND_SEPARATOR; iK_KIND_MAX; iK_KIND_INVALID]))
+      (dec_of_n iK_SEQ_NUM_MAX) (dec_of_n iK_TIMESTAMP_MAX) (int_of_n tBL_BLOCK_CKSUM_LEN) (int_of_n tBL_BLOCK_COMPRESS_LEN)
+  | "build" :: id :: opts :: entries :: rest ->
+    let o = tbl_opts opts in
+    let es = tbl_entries entries in
+    Hashtbl.remove tbl_tables id;
+    if es = [] then "err:empty" else begin
+      let sorted = let rec ok = function a :: (b :: _ as r) -> ik_cmp (fst a) (fst b) = Lt && ok r | _ -> true in ok es in
+      if not sorted then "err:entries-not-strictly-sorted" else
+      match rest with
+      | [bc; pc] ->
+        (match build_table (nat_of_int (List.assoc "ri" o)) es (dots bc) (dots pc) with
+         | None -> "error:bad-chunking"
+         | Some t ->
+           let fb = List.assoc "f" o in
+           let filt = if fb = 0 then None else
+               Some (bloom_create bloom_hash32 (n_of_int fb) (nat_of_int (bloom_k fb)) (List.map (fun (k, _) -> k.ik_uk) es)) in
+           let mc = match filt with None -> (fun _ -> true) | Some f -> bloom_may_contain bloom_hash32 f in
+           Hashtbl.replace tbl_tables id (t, mc, filt);
+           let idx = List.concat t.t_parts in
+           Printf.sprintf "ok n=%d blocks=%s parts=%s idx=%s top=%s firsts=%s lasts=%s range=%s..%s filter=%d"
+             (List.length es) bc pc (fnv_keys (List.map fst idx)) (fnv_keys (List.map fst t.t_top))
+             (fnv_keys (List.map first_of t.t_blocks)) (fnv_keys (List.map last_of t.t_blocks))
+             (match t.t_smallest with Some k -> show_ikey k | None -> "none")
+             (match t.t_largest with Some k -> show_ikey k | None -> "none")
+             (if filt = None then 0 else 1))
+      | _ -> "error:chunking-missing"
+    end
+  | ["index"; id] ->
+    let (t, _, _) = Hashtbl.find tbl_tables id in
+    String.concat ";" (List.map2 (fun (tk, _) p ->
+        hex_of_bytes (ik_encode tk) ^ ">" ^ String.concat "," (List.map (fun (k, _) -> hex_of_bytes (ik_encode k)) p)) t.t_top t.t_parts)
+  | ["get"; id; key; snap] ->
+    let (t, mc, _) = Hashtbl.find tbl_tables id in
+    let probe = mk_key (bytes_of_hex key) (big_of_string snap) iK_KIND_SET N0 in
+    (match table_get t mc probe.ik_uk probe.ik_seq with
+     | None -> "none"
+     | Some (k, v) -> Printf.sprintf "some:%s=%s" (show_ikey k) (show_val v))
+  | ["filt"; id; key] ->
+    let (_, mc, filt) = Hashtbl.find tbl_tables id in
+    if filt = None then "nofilter" else if mc (bytes_of_hex key) then "1" else "0"
+  | ["cur"; id; cid; "open"; lo; hi] ->
+    let _ = Hashtbl.find tbl_tables id in
+    Hashtbl.replace tbl_cursors (id, cid) (tbl_bound lo, tbl_bound hi, ref t_new); "ok"
+  | "cur" :: id :: cid :: op :: rest ->
+    let (t, _, _) = Hashtbl.find tbl_tables id in
+    let (lo, hi, st) = Hashtbl.find tbl_cursors (id, cid) in
+    (match op, rest with
+     | "first", [] -> st := t_seek_first t lo hi !st
+     | "last", [] -> st := t_seek_last t lo hi !st
+     | "next", [] -> st := t_next t lo hi !st
+     | "prev", [] -> st := t_prev t lo hi !st
+     | "seek", [k; seq] -> st := t_seek t hi (mk_key (bytes_of_hex k) (big_of_string seq) iK_KIND_SET N0) !st
+     | _ -> failwith "bad cursor op");
+    let v = t_valid !st in
+    (match (if v then t_entry t !st else None) with
+     | Some (k, vl) -> Printf.sprintf "r=%d %s=%s" (if v then 1 else 0) (show_ikey k) (show_val vl)
+     | None -> Printf.sprintf "r=%d invalid" (if v then 1 else 0))
+  | ["pred"; id; "inrange"; key] ->
+    let (t, _, _) = Hashtbl.find tbl_tables id in
+    if is_key_in_key_range t (bytes_of_hex key) then "1" else "0"
+  | ["pred"; id; which; lo; hi] ->
+    let (t, _, _) = Hashtbl.find tbl_tables id in
+    let (lo, hi) = (tbl_bound lo, tbl_bound hi) in
+    let b = (match which with
+        | "before" -> is_before_range t lo
+        | "after" -> is_after_range t hi
+        | "overlaps" -> overlaps_with_range t lo hi
+        | _ -> failwith "bad predicate") in
+    if b then "1" else "0"
+  | ["sep"; "bytewise"; x; y] -> hex_of_bytes (bw_separator (bytes_of_hex x) (bytes_of_hex y))
+  | ["succ"; "bytewise"; x] -> hex_of_bytes (bw_successor (bytes_of_hex x))
+  | ["sep"; "internal"; x; y] -> (match ik_separator_enc (bytes_of_hex x) (bytes_of_hex y) with Some r -> hex_of_bytes r | None -> "PANIC:short")
+  | ["succ"; "internal"; x] -> (match ik_successor_enc (bytes_of_hex x) with Some r -> hex_of_bytes r | None -> "PANIC:short")
+  | ["cmp"; x; y] ->
+    (match ik_decode (bytes_of_hex x), ik_decode (bytes_of_hex y) with
+     | Some a, Some b -> (match ik_cmp a b with Lt -> "-1" | Eq -> "0" | Gt -> "1")
+     | _ -> "PANIC:short")
+  | ["enc"; k; seq; kind; ts] ->
+    hex_of_bytes (ik_encode { ik_uk = bytes_of_hex k; ik_seq = big_of_string seq; ik_kind = big_of_string kind; ik_ts = big_of_string ts })
+  | ["dec"; x] -> (match ik_decode (bytes_of_hex x) with None -> "short" | Some k -> show_ikey k)
+  | ["hash"; x; seed] -> dec_of_n (hash32 (bytes_of_hex x) (big_of_string seed))
+  | ["bloom"; bpk; keys; probes] ->
+    let bpk = int_of_string bpk in
+    let keys = if keys = "~" then [] else List.map bytes_of_hex (String.split_on_char ',' keys) in
+    let f = bloom_create bloom_hash32 (n_of_int bpk) (nat_of_int (bloom_k bpk)) keys in
+    let ans = String.concat "" (List.map (fun p -> if bloom_may_contain bloom_hash32 f (bytes_of_hex p) then "1" else "0") (String.split_on_char ',' probes)) in
+    Printf.sprintf "filter=%d/%s probes=%s" (List.length f) (fnv f) ans
+  | _ -> "bad-command"
+
 let () =
   try
     while true do
@@ -474,6 +620,7 @@ let () =
             | "wal" :: rest -> wal_cmd rest
             | "e2" :: rest -> e2_cmd rest
             | "ck" :: rest -> ck_cmd rest
+            | "tbl" :: rest -> tbl_cmd rest
             | "bpt" :: rest -> bpt_cmd rest
             | "pg" :: rest -> pg_cmd rest
             | "orc" :: rest -> orc_cmd rest
